@@ -5,7 +5,7 @@ use crate::sandbox::{Mode, Sandbox};
 use proptest::prelude::*;
 use serde::{Deserialize, Serialize};
 use serde_json::{json, Value};
-use std::collections::BTreeMap;
+use std::collections::{BTreeMap, BTreeSet};
 use std::path::{Path, PathBuf};
 
 pub const PRESETS: &[(&str, &str)] = &[
@@ -72,7 +72,7 @@ pub fn strategy() -> impl Strategy<Value = Case> {
     ];
     (
         0u8..PRESETS.len() as u8,
-        prop_oneof![3 => Just(0u8), 4 => Just(1u8), 4 => Just(2u8), 1 => Just(3u8), 1 => Just(4u8), 4 => Just(5u8)],
+        prop_oneof![3 => Just(0u8), 4 => Just(1u8), 4 => Just(2u8), 1 => Just(3u8), 1 => Just(4u8), 4 => Just(5u8), 4 => Just(6u8)],
         0u8..10,
         proptest::option::weighted(0.4, 0u8..10),
         any::<bool>(),
@@ -119,7 +119,18 @@ fn build_layout(sb: &mut Sandbox, layout: u8) -> Layout {
     let outside = root.join("outside");
     std::fs::create_dir_all(&outside).unwrap();
     std::fs::write(outside.join("loose.txt"), "not in any repository\n").unwrap();
-    match layout % 6 {
+    match layout % 7 {
+        6 => {
+            // a workspace that is no repository, holding a repository with another
+            // repository nested inside it
+            let ws = root.join("ws");
+            std::fs::create_dir_all(&ws).unwrap();
+            let app = ws.join("app");
+            init_repo(sb, &app, false);
+            let inner = app.join("plugins/extra");
+            init_repo(sb, &inner, false);
+            Layout { workspace: ws, repos: vec![app, inner], outside }
+        }
         0 => {
             let r = root.join("ws");
             init_repo(sb, &r, false);
@@ -371,13 +382,45 @@ fn owner<'a>(repos: &'a [PathBuf], abs: &Path) -> Option<&'a PathBuf> {
 }
 
 pub fn run(case: &Case) -> CaseReport {
+    let mut recorded = BTreeSet::new();
+    let mut rep = run_inner(case, false, &mut recorded);
+    // Metamorphic clause: which (repository, file) pairs get recorded must not depend on the
+    // ORDER in which the payload lists the files (each file is recorded in the repository that
+    // contains it - not in whichever repository an earlier file of the payload resolved to).
+    // (only for the preset whose payload is a plain list of edited files; the others read one
+    // path field, so 'the first file' is part of their input, not an order)
+    if case.second_path_class.is_some() && rep.violations.is_empty() && PRESETS[case.preset as usize % PRESETS.len()].0 == "agent-v1" {
+        let mut recorded_rev = BTreeSet::new();
+        let rev = run_inner(case, true, &mut recorded_rev);
+        if rev.violations.is_empty() {
+            rep.judged_strict += 1;
+            rep.class("order-of-files-permuted");
+            if recorded != recorded_rev {
+                rep.violate(
+                    "C20:recorded-files-depend-on-payload-order",
+                    format!(
+                        "preset {} layout {} path classes {:?}: recorded (repository#, file) {:?} with the files in the given order, {:?} with the order reversed",
+                        PRESETS[case.preset as usize % PRESETS.len()].0,
+                        case.layout % 7,
+                        (case.path_class % 10, case.second_path_class.map(|c| c % 10)),
+                        recorded,
+                        recorded_rev
+                    ),
+                );
+            }
+        }
+    }
+    rep
+}
+
+fn run_inner(case: &Case, reverse: bool, recorded: &mut BTreeSet<(usize, String)>) -> CaseReport {
     let mut rep = CaseReport::default();
     let (preset, event) = PRESETS[case.preset as usize % PRESETS.len()];
     let mut sb = Sandbox::new(Mode::Wrapper);
     sb.step_timeout = std::time::Duration::from_secs(60);
     let l = build_layout(&mut sb, case.layout);
     rep.class(format!("preset:{preset}"));
-    rep.class(format!("layout:{}", case.layout % 6));
+    rep.class(format!("layout:{}", case.layout % 7));
     let mut files = Vec::new();
     let mut named_existing = 0;
     for c in std::iter::once(case.path_class).chain(case.second_path_class) {
@@ -395,6 +438,9 @@ pub fn run(case: &Case) -> CaseReport {
         rep.class(format!("path-class:{}", c % 10));
         files.push(s);
     }
+    if reverse {
+        files.reverse();
+    }
     let tpath = write_transcript(&sb, case.transcript);
     install_side_stores(&mut sb, case.transcript);
     let cwd = if case.cwd_inside { l.workspace.clone() } else { l.outside.clone() };
@@ -410,7 +456,7 @@ pub fn run(case: &Case) -> CaseReport {
     };
     let ctx = format!(
         "preset {preset} ({event}) layout {} paths {:?} cwd_inside {} mutations {:?}",
-        case.layout % 6,
+        case.layout % 7,
         files,
         case.cwd_inside,
         case.mutations
@@ -431,7 +477,7 @@ pub fn run(case: &Case) -> CaseReport {
     rep.judged_strict += 1;
     // working logs of every repository
     let mut recorded_somewhere = false;
-    for r in &l.repos {
+    for (ri, r) in l.repos.iter().enumerate() {
         let wl = r.join(".git/ai/working_logs");
         let git_dir_is_file = r.join(".git").is_file();
         if git_dir_is_file {
@@ -452,6 +498,7 @@ pub fn run(case: &Case) -> CaseReport {
                     for en in j.get("entries").and_then(|x| x.as_array()).cloned().unwrap_or_default() {
                         let Some(f) = en.get("file").and_then(|x| x.as_str()) else { continue };
                         recorded_somewhere = true;
+                        recorded.insert((ri, f.to_string()));
                         if *r != l.workspace {
                             rep.class("recorded-in-a-repository-other-than-the-workspace");
                         }
@@ -491,7 +538,7 @@ pub fn run(case: &Case) -> CaseReport {
     }
     // files in no repository appear nowhere: nothing under the sandbox outside the repos
     for stray in [l.outside.join(".git"), l.workspace.join(".git-ai"), sb.root.join(".git")] {
-        if stray.exists() && !l.repos.iter().any(|r| r.join(".git") == stray) && case.layout % 6 != 3 {
+        if stray.exists() && !l.repos.iter().any(|r| r.join(".git") == stray) && case.layout % 7 != 3 {
             rep.violate("C20:state-written-outside-any-repository", format!("{ctx}: {} exists", stray.display()));
         }
     }
@@ -513,14 +560,33 @@ pub fn spec() -> Spec<Case> {
     Spec {
         id: "C20",
         level: "exploration",
-        rule: "for each of 12 preset names (claude, codex, gemini, continue-cli, cursor, github-copilot, amp, ai_tab, agent-v1, droid, opencode, an unknown name; pre- and post-edit events) a union payload template carrying every key any preset reads is mutated structurally (truncation at any byte, key deletion, type swap string<->number<->array<->object<->null<->bool, nesting, duplicated key, 70 kB - 3 MB strings, BOM, non-JSON, empty object) and delivered via --hook-input <arg> or stdin; path fields are drawn from {relative in repo, absolute, with `..`, via symlink, missing, a directory, outside any repository, in the innermost repository, in a sibling repository via `..`, in a non-existent directory}; layouts: single repository, nested repositories, multi-repository workspace whose root is no repository, sibling repositories with the workspace in the first, bare repository, no repository; cwd inside or outside the workspace; transcript side files valid / empty / garbage / other-format / missing. Oracle: exit status 0, no Rust panic banner, termination within the watchdog; afterwards every checkpoints.jsonl of every repository is line-wise valid JSON, `checkpoint --show-working-log` succeeds, every recorded file resolves inside the work tree of the repository that owns that log and belongs to no other (innermost) repository, nothing is created outside repositories, and a wrapped commit still succeeds in each. non-trivial = valid JSON naming an existing file, or a non-empty payload the parser rejects; distinct by case hash".into(),
+        rule: "for each of 12 preset names (claude, codex, gemini, continue-cli, cursor, github-copilot, amp, ai_tab, agent-v1, droid, opencode, an unknown name; pre- and post-edit events) a union payload template carrying every key any preset reads is mutated structurally (truncation at any byte, key deletion, type swap string<->number<->array<->object<->null<->bool, nesting, duplicated key, 70 kB - 3 MB strings, BOM, non-JSON, empty object) and delivered via --hook-input <arg> or stdin; path fields are drawn from {relative in repo, absolute, with `..`, via symlink, missing, a directory, outside any repository, in the innermost repository, in a sibling repository via `..`, in a non-existent directory}; layouts: single repository, nested repositories, multi-repository workspace whose root is no repository, a non-repository workspace holding a repository with a nested repository, sibling repositories with the workspace in the first, bare repository, no repository; cwd inside or outside the workspace; transcript side files valid / empty / garbage / other-format / missing. Oracle: exit status 0, no Rust panic banner, termination within the watchdog; afterwards every checkpoints.jsonl of every repository is line-wise valid JSON, `checkpoint --show-working-log` succeeds, every recorded file resolves inside the work tree of the repository that owns that log and belongs to no other (innermost) repository, nothing is created outside repositories, and a wrapped commit still succeeds in each; for the agent-v1 preset (whose payload is a plain list of edited files) the set of recorded (repository, file) pairs must not change when the order of the files in the payload is reversed. non-trivial = valid JSON naming an existing file, or a non-empty payload the parser rejects; distinct by case hash".into(),
         cases_quick: 2500,
         cases_thorough: 24_000,
         shrink_iters: 100,
         workers: 14,
         strategy: strategy().sboxed(),
         run,
-        fixed_cases: vec![],
+        fixed_cases: {
+            // the un-mutated agent-v1 payload (a plain list of edited files) over every layout and
+            // every pair of absolute path classes: exercises repository grouping and the
+            // order-independence clause systematically
+            let agent_v1 = PRESETS.iter().position(|p| p.0 == "agent-v1").unwrap() as u8;
+            let mut v = Vec::new();
+            for layout in 0..7u8 {
+                for a in [1u8, 3, 7, 6] {
+                    for b in [1u8, 7, 6] {
+                        if a == b {
+                            continue;
+                        }
+                        for cwd_inside in [true, false] {
+                            v.push(Case { preset: agent_v1, layout, path_class: a, second_path_class: Some(b), cwd_inside, via_stdin: false, transcript: 0, mutations: vec![] });
+                        }
+                    }
+                }
+            }
+            v
+        },
         assumptions: vec![
             "path fields name regular files, directories or nothing (no devices / FIFOs)".into(),
             "a watchdog hit is reported as inconclusive (exit 2), never as a violation".into(),
